@@ -141,6 +141,19 @@ func classify(err error) string {
 
 // Run executes the case against a fresh dig container.
 func Run(c *Case, ro RunOpts) *Trace {
+	if c.Cfg.Shadow {
+		// another container first: same functions' types, registrations
+		// without their Name / Group / As options (so that anything keyed by
+		// type alone across containers would go stale), nothing risky
+		sc := c.Clone()
+		sc.Cfg.Shadow = false
+		for i := range sc.Ops {
+			if o := sc.Ops[i].O; o != nil {
+				o.Name, o.Group, o.As, o.AsRaw, o.AsSplit = "", "", nil, nil, false
+			}
+		}
+		Run(sc, RunOpts{StopAfter: ro.StopAfter})
+	}
 	rt := newRT()
 	tr := &Trace{Case: c, RT: rt, Ops: make([]OpOut, len(c.Ops))}
 	cfg := c.Cfg
